@@ -4,8 +4,24 @@ seeded changes (from seeded/*/meta.json), claimed checks (from MANIFEST.json + e
 import json, glob, os, re, subprocess
 HERE = os.path.dirname(os.path.abspath(__file__))
 
+def reeval():
+    try:
+        return json.load(open(os.path.join(HERE, 'seeded', 'REEVAL.json')))
+    except Exception:
+        return {}
+
+def now_col(sid, R):
+    r = R.get(sid)
+    if not r:
+        return '—'
+    if r.get('stale'):
+        return 'patch no longer applies (later repair on the same lines)'
+    return '; '.join('%s: %s' % (c, {'quiet': 'not detected', 'no-failing-input': 'no-failing-input-found', 'concrete': 'failing input'}.get(o, o))
+                     for c, o in sorted(r['checks'].items())) + ' (@%s)' % r.get('repo', '?')
+
 def seeded():
-    rows = ['| seeded change | property | what it needs to manifest | detected by | how |', '|---|---|---|---|---|']
+    R = reeval()
+    rows = ['| seeded change | property | what it needs to manifest | detected by | how (when first evaluated) | re-evaluated with the checks as they are now |', '|---|---|---|---|---|---|']
     for f in sorted(glob.glob(os.path.join(HERE, 'seeded', '*', 'meta.json'))):
         m = json.load(open(f))
         if m.get('kind') == 'harmless':
@@ -17,8 +33,9 @@ def seeded():
                 how.append('%s: %s' % (c, 'no-failing-input-found' if v and 'no-failing-input-found' in v[0] else 'failing input'))
             else:
                 how.append('%s: not detected' % c)
-        rows.append('| %s %s | %s | %s | %s | %s |' % (m['seed_id'], m.get('title', '').replace('|', '/')[:90], m.get('property', ''),
-                    str(m.get('needs_to_manifest', '')).replace('|', '/').replace('\n', ' ')[:160], ', '.join(m.get('detected_by', [])) or '—', '; '.join(how)))
+        rows.append('| %s %s | %s | %s | %s | %s | %s |' % (m['seed_id'], m.get('title', '').replace('|', '/')[:90], m.get('property', ''),
+                    str(m.get('needs_to_manifest', '')).replace('|', '/').replace('\n', ' ')[:160], ', '.join(m.get('detected_by', [])) or '—', '; '.join(how),
+                    now_col(m['seed_id'], R)))
     return '\n'.join(rows)
 
 def harmless():
